@@ -93,18 +93,18 @@ Print Assumptions validated_never_panics_rvesting_params.
 
 (** ** InitGenesis of validated genesis states *)
 
-(** xibc: under the hypothesis that no relayer address is empty - which GenesisState.Validate does NOT
-    check at /repo HEAD (finding xibc-genesis-relayer-empty-address; Refuted/C15_refuted.v shows the
-    hypothesis is necessary) - or for a Validate that does check it. *)
-Theorem validated_never_panics_xibc_genesis : forall g,
-  gx_validate g = Ok tt -> relayers_nonempty g -> gx_init g = Ok tt.
-Proof. intros g H R. eapply gx_init_safe; [exact H | right; exact R]. Qed.
+(** xibc (client + packet genesis): unconditional since GenesisState.Validate validates the relayers
+    (d9df21a, repair delivered by this check: finding xibc-genesis-relayer-empty-address). *)
+Theorem validated_never_panics_xibc_genesis : forall g, gx_validate g = Ok tt -> gx_init g = Ok tt.
+Proof. intros g H. eapply gx_init_safe; [exact H | left; reflexivity]. Qed.
 Print Assumptions validated_never_panics_xibc_genesis.
 
-Theorem validated_never_panics_xibc_genesis_with_relayer_check : forall g,
-  gx_validate_gen true g = Ok tt -> gx_init g = Ok tt.
-Proof. intros g H. eapply gx_init_safe; [exact H | left; reflexivity]. Qed.
-Print Assumptions validated_never_panics_xibc_genesis_with_relayer_check.
+(** The validation of the pinned commit needed the hypothesis that no relayer address is empty
+    (Refuted/C15_refuted.v: it is necessary). *)
+Theorem validated_never_panics_xibc_genesis_old : forall g,
+  gx_validate_old g = Ok tt -> relayers_nonempty g -> gx_init g = Ok tt.
+Proof. intros g H R. eapply gx_init_safe; [exact H | right; exact R]. Qed.
+Print Assumptions validated_never_panics_xibc_genesis_old.
 
 Theorem validated_never_panics_aggregate_genesis : forall l, ga_validate l = Ok tt -> ga_init l = Ok tt.
 Proof. exact ga_init_safe. Qed.
